@@ -36,7 +36,7 @@ PRIOS = [-2, -1, -0.5, 0, 0, 0, 0.5, 1, 3]
 
 def run_case(case):
     from vlib.prog import World
-    w = World({'handlers': case['handlers']})
+    w = World({'handlers': case['handlers'], 'mk': case.get('mk')})
     if case.get('preload'):
         # a long-lived manager: it has already queued and dispatched this many events (nobody listens to them) before the passes
         # under test begin - the ordering guarantees do not wear off with the number of events processed
@@ -321,6 +321,8 @@ def gen_case(rng):
         for _ in range(rng.randint(1, 2)):
             passes.insert(rng.randint(0, len(passes)), {'join': [EV(rng.choice(names[rng.randint(0, nlev - 1)]), rng.choice(PRIOS)) for _ in range(rng.randint(2, 7))]})
     case = {'handlers': handlers, 'passes': passes}
+    if rng.random() < 0.2:
+        case['mk'] = rng.choice(['attr', 'renamed'])   # events whose name is not their class name
     if rng.random() < 0.01:
         case['preload'] = rng.choice([1 << 15, 1 << 16]) - rng.randint(0, 12)
     return case
